@@ -24,6 +24,19 @@
      insn OPCODE OP...   OP = r:N i:DEC u:DEC f:HEX8 d:HEX16 ld:HEX20 l:N ref:N s:HEX
                               m:TYPE:DISP:BASE|-:INDEX|-:SCALE:ALIAS|-:NONALIAS|-
      exec                (ask for execution of "main")
+     newctx              (between modules: the modules described so far are written with
+                          MIR_write_with_func and a fresh context is started whose labels are numbered from 1
+                          again; at the end every such segment is read into ONE context, which is then the
+                          context under test - the way separately produced .bmir files are combined, and the
+                          only way through the API to get modules with overlapping label numbers)
+     an item name of the form .lc<N> (N = 1..2000, canonical decimal) is a reserved temporary item
+     name: the harness obtains it the way c2m does, by calling _MIR_get_temp_item_name until the
+     module's counter has reached N
+   Additional observations:
+     TN1/TR1, TN2/TR2 = module->last_temp_item_num of every module / func->last_temp_num of every
+           function right after the binary read / the scan
+     FR0/FR1/FR2 = at the very end: the next _MIR_get_temp_item_name of every module is not the name of
+           an item of that module and _MIR_new_temp_reg works in every function (ok | clash:<name>)
      table               (print the insn table of the tree instead: code name nops modes) */
 #include <stdio.h>
 #include <stdlib.h>
@@ -198,9 +211,73 @@ static MIR_op_t parse_op (MIR_context_t ctx, MIR_module_t m, MIR_func_t func, ch
   exit (3);
 }
 
+
+/* ---------------------------------------------------------------- segments (newctx) and reserved names */
+#define MAXSEG 16
+static buf_t segs[MAXSEG];
+static int nsegs;
+static const char *seg_stage; /* non-NULL while a segment is written / read: an error there is not an API rejection */
+
+static void note_item_name (MIR_context_t ctx, MIR_module_t m, const char *name) {
+  char buf[64];
+  if (name == NULL || m == NULL || strncmp (name, ".lc", 3) != 0) return;
+  const char *d = name + 3;
+  size_t len = strlen (d);
+  if (len == 0 || len > 4 || d[0] == '0') return;
+  for (size_t i = 0; i < len; i++)
+    if (d[i] < '0' || d[i] > '9') return;
+  unsigned long n = strtoul (d, NULL, 10);
+  if (n > 2000) return;
+  while (m->last_temp_item_num < n) _MIR_get_temp_item_name (ctx, m, buf, sizeof (buf));
+}
+
+static void emit_counters (FILE *out, const char *tag, MIR_context_t ctx) {
+  fprintf (out, "|TN%s=", tag);
+  for (MIR_module_t m = DLIST_HEAD (MIR_module_t, *MIR_get_module_list (ctx)); m != NULL; m = DLIST_NEXT (MIR_module_t, m))
+    fprintf (out, "%u,", (unsigned) m->last_temp_item_num);
+  fprintf (out, "|TR%s=", tag);
+  for (MIR_module_t m = DLIST_HEAD (MIR_module_t, *MIR_get_module_list (ctx)); m != NULL; m = DLIST_NEXT (MIR_module_t, m))
+    for (MIR_item_t it = DLIST_HEAD (MIR_item_t, m->items); it != NULL; it = DLIST_NEXT (MIR_item_t, it))
+      if (it->item_type == MIR_func_item) fprintf (out, "%u,", (unsigned) it->u.func->last_temp_num);
+}
+
+/* the next temporary names of the context are unused */
+static void probe_fresh (FILE *out, const char *tag, MIR_context_t ctx) {
+  char buf[64];
+  if (setjmp (err_jmp)) {
+    fprintf (out, "|FR%s=clash:%s", tag, err_msg);
+    return;
+  }
+  for (MIR_module_t m = DLIST_HEAD (MIR_module_t, *MIR_get_module_list (ctx)); m != NULL; m = DLIST_NEXT (MIR_module_t, m)) {
+    _MIR_get_temp_item_name (ctx, m, buf, sizeof (buf));
+    for (MIR_item_t it = DLIST_HEAD (MIR_item_t, m->items); it != NULL; it = DLIST_NEXT (MIR_item_t, it)) {
+      const char *n = MIR_item_name (ctx, it);
+      if (n != NULL && strcmp (n, buf) == 0) {
+        fprintf (out, "|FR%s=clash:%s", tag, buf);
+        return;
+      }
+      if (it->item_type == MIR_func_item) {
+        /* a clash with an existing register is a "Repeated reg declaration" error (caught above) */
+        (void) _MIR_new_temp_reg (ctx, MIR_T_I64, it->u.func);
+      }
+    }
+  }
+  fprintf (out, "|FR%s=ok", tag);
+}
+
+static void seg_flush (MIR_context_t ctx) {
+  if (nsegs >= MAXSEG) { fprintf (stderr, "harness: too many segments\n"); exit (3); }
+  seg_stage = "segment-write";
+  memset (&wbuf, 0, sizeof (wbuf));
+  MIR_write_with_func (ctx, writer);
+  segs[nsegs++] = wbuf;
+  memset (&wbuf, 0, sizeof (wbuf));
+  seg_stage = NULL;
+}
+
 static int want_exec;
 
-static void build (MIR_context_t ctx, char *desc) {
+static MIR_context_t build (MIR_context_t ctx, char *desc) {
   MIR_module_t m = NULL;
   MIR_item_t func = NULL;
   char *stmt, *save1;
@@ -213,18 +290,28 @@ static void build (MIR_context_t ctx, char *desc) {
       tok[nt++] = t;
     if (nt == 0) continue;
     const char *k = tok[0];
-    if (!strcmp (k, "module")) {
+    if (!strcmp (k, "newctx")) {
+      seg_flush (ctx);
+      ctx = MIR_init ();
+      MIR_set_error_func (ctx, err_func);
+      memset (labels, 0, MAXLAB * sizeof (MIR_label_t));
+      nlabels = 0;
+    } else if (!strcmp (k, "module")) {
       m = MIR_new_module (ctx, tok[1]);
     } else if (!strcmp (k, "endmodule")) {
       MIR_finish_module (ctx);
       m = NULL;
     } else if (!strcmp (k, "import")) {
+      note_item_name (ctx, m, tok[1]);
       MIR_new_import (ctx, tok[1]);
     } else if (!strcmp (k, "export")) {
+      note_item_name (ctx, m, tok[1]);
       MIR_new_export (ctx, tok[1]);
     } else if (!strcmp (k, "forward")) {
+      note_item_name (ctx, m, tok[1]);
       MIR_new_forward (ctx, tok[1]);
     } else if (!strcmp (k, "bss")) {
+      note_item_name (ctx, m, opt_name (tok[1]));
       MIR_new_bss (ctx, opt_name (tok[1]), strtoull (tok[2], NULL, 10));
     } else if (!strcmp (k, "data")) {
       MIR_type_t t = parse_type (tok[2]);
@@ -246,18 +333,22 @@ static void build (MIR_context_t ctx, char *desc) {
           memcpy (els + i * sz, &u, sz);       /* little endian */
         }
       }
+      note_item_name (ctx, m, opt_name (tok[1]));
       MIR_new_data (ctx, opt_name (tok[1]), t, nel, els);
       free (els);
     } else if (!strcmp (k, "ref")) {
       MIR_item_t it = find_item (ctx, m, tok[2]);
       if (it == NULL) { snprintf (err_msg, sizeof (err_msg), "harness:no item %s", tok[2]); longjmp (err_jmp, 1); }
+      note_item_name (ctx, m, opt_name (tok[1]));
       MIR_new_ref_data (ctx, opt_name (tok[1]), it, (int64_t) strtoull (tok[3], NULL, 10));
     } else if (!strcmp (k, "lref")) {
+      note_item_name (ctx, m, opt_name (tok[1]));
       MIR_new_lref_data (ctx, opt_name (tok[1]), get_label (atol (tok[2])),
                          strcmp (tok[3], "-") ? get_label (atol (tok[3])) : NULL, (int64_t) strtoull (tok[4], NULL, 10));
     } else if (!strcmp (k, "expr")) {
       MIR_item_t it = find_item (ctx, m, tok[2]);
       if (it == NULL) { snprintf (err_msg, sizeof (err_msg), "harness:no item %s", tok[2]); longjmp (err_jmp, 1); }
+      note_item_name (ctx, m, opt_name (tok[1]));
       MIR_new_expr_data (ctx, opt_name (tok[1]), it);
     } else if (!strcmp (k, "proto") || !strcmp (k, "func")) {
       MIR_type_t res[64];
@@ -278,6 +369,7 @@ static void build (MIR_context_t ctx, char *desc) {
           nargs++;
         }
       }
+      note_item_name (ctx, m, tok[1]);
       if (!strcmp (k, "proto")) {
         if (vararg) MIR_new_vararg_proto_arr (ctx, tok[1], nres, res, nargs, args);
         else MIR_new_proto_arr (ctx, tok[1], nres, res, nargs, args);
@@ -317,6 +409,19 @@ static void build (MIR_context_t ctx, char *desc) {
       exit (3);
     }
   }
+  if (nsegs > 0) {
+    seg_flush (ctx);
+    ctx = MIR_init ();
+    MIR_set_error_func (ctx, err_func);
+    seg_stage = "segment-read";
+    for (int i = 0; i < nsegs; i++) {
+      rbuf = &segs[i];
+      rpos = 0;
+      MIR_read_with_func (ctx, reader);
+    }
+    seg_stage = NULL;
+  }
+  return ctx;
 }
 
 /* ---------------------------------------------------------------- execution */
@@ -374,11 +479,16 @@ static void run_case (FILE *out, char *desc) {
   stage = "build";
   a = MIR_init ();
   MIR_set_error_func (a, err_func);
+  nsegs = 0;
+  seg_stage = NULL;
   if (setjmp (err_jmp)) {
-    fprintf (out, "build=REJECT:%s", err_msg);
+    if (seg_stage != NULL)
+      fprintf (out, "build=SEGERR:%s:%s", seg_stage, err_msg);
+    else
+      fprintf (out, "build=REJECT:%s", err_msg);
     return;
   }
-  build (a, desc);
+  a = build (a, desc);
   fprintf (out, "build=ok");
   fflush (out);
 
@@ -432,6 +542,7 @@ static void run_case (FILE *out, char *desc) {
       stage = "output-after-read";
       t1 = text_of (b, &n1);
       emit_text (out, "T1", t1, n1, t0, n0);
+      emit_counters (out, "1", b);
     }
     fflush (out);
   }
@@ -449,6 +560,7 @@ static void run_case (FILE *out, char *desc) {
       stage = "output-after-scan";
       t2 = text_of (c, &n2);
       emit_text (out, "T2", t2, n2, t0, n0);
+      emit_counters (out, "2", c);
     }
     fflush (out);
     if (sc_ok) {
@@ -482,6 +594,11 @@ static void run_case (FILE *out, char *desc) {
       fflush (out);
     }
   }
+  stage = "probe";
+  probe_fresh (out, "0", a);
+  if (rb_ok) probe_fresh (out, "1", b);
+  if (sc_ok) probe_fresh (out, "2", c);
+  fflush (out);
 }
 
 static void print_table (void) {
